@@ -5,6 +5,7 @@ mod frags;
 mod gen;
 mod kinds;
 mod lspdrv;
+mod lspsweep;
 mod pipeline;
 mod refsem;
 mod rewrite;
